@@ -3,6 +3,7 @@
 from __future__ import annotations
 
 import copy
+import warnings
 
 import numpy as np
 
@@ -24,7 +25,7 @@ RULE = ("pairs of maze objects of all three kinds (identical object, equal copie
 ASSUMPTIONS = ["reference equality is the statement's: same kind, identical connection structure, start, end and solution"]
 NSHARDS = {"quick": 16, "thorough": 16}
 _PAIR = ["identical", "copy", "copy-dtype", "copy-layout", "bitflip", "endpoint", "solcell", "sollen", "shape", "kind", "meta"]
-THRESHOLDS = {"quick": {**{f"c09:pair:{p}": 50 for p in _PAIR}, "c09:hash:LatticeMaze": 100, "c09:hash:TargetedLatticeMaze": 100,
+THRESHOLDS = {"quick": {**{f"c09:pair:{p}": 50 for p in _PAIR}, "c09:hash:LatticeMaze": 100, "c09:pair:other-route": 600, "c09:loader-ctor:negative": 40, "c09:loader-ctor:too-large": 25, "c09:hash:TargetedLatticeMaze": 100,
                         "c09:hash:SolvedMaze": 100, "c09:set-dedup": 100, "c09:dataset-eq": 30, "c09:ctor:in-range": 300,
                         "c09:ctor:negative": 300, "c09:ctor:too-large": 300, "c09:ctor:solved": 200, "c09:big-pairs": 40, "c09:dataset-eq-big": 40,
                         "c09:travelled:hashed-first": 10, "c09:travelled:never-hashed": 10, "c09:caller-arrays": 300, "c09:dataset-boundary-shift": 8}}
@@ -225,6 +226,118 @@ def run(ctx):
     _big(ctx, 48 if ctx.quick else 800)
     _travel(ctx, 24 if ctx.quick else 200)
     _ctors(ctx, 2400 if ctx.quick else 48000)
+    _other_routes(ctx, 240 if ctx.quick else 2400)
+    _loader_ctors(ctx, 120 if ctx.quick else 1200)
+
+
+def _other_routes(ctx, n):
+    """equal mazes that came into being in different ways (constructor; read back from the colour picture, the black/white mask, the
+    mask as 0/1 integers, one grey channel 0/255, the text drawing; serialize -> load; pickle): == both ways, equal hashes, one set entry"""
+    import pickle
+
+    from maze_dataset.maze.lattice_maze import LatticeMaze, SolvedMaze, TargetedLatticeMaze
+
+    for i in range(n):
+        if not ctx.mine(i):
+            continue
+        rng = ctx.sub_rng("routes", i)
+        d = _data(rng)
+        if d["cl"].shape[1] * d["cl"].shape[2] < 2:
+            continue
+        kind = KINDS[i % 3]
+        cls = {"LatticeMaze": LatticeMaze, "TargetedLatticeMaze": TargetedLatticeMaze, "SolvedMaze": SolvedMaze}[kind]
+        case = dict(kind=kind, d=d)
+        try:
+            a = _make(kind, d)
+            px = a.as_pixels()
+        except Exception as e:  # noqa: BLE001
+            ctx.tally(f"c09:route-base-unavailable:{type(e).__name__}(not judged)")
+            continue
+        routes = {"from_pixels(rgb)": lambda: cls.from_pixels(px), "from_ascii": lambda: cls.from_ascii(a.as_ascii()),
+                  "load(serialize())": lambda: cls.load(a.serialize()), "pickle": lambda: pickle.loads(pickle.dumps(a))}
+        if kind == "LatticeMaze":
+            routes.update({"from_pixels(bool mask)": lambda: cls.from_pixels(px[..., 0] > 0),
+                           "from_pixels(0/1 integers)": lambda: cls.from_pixels((px[..., 0] > 0).astype(np.int64)),
+                           "from_pixels(0/1 floats)": lambda: cls.from_pixels((px[..., 0] > 0).astype(np.float64)),
+                           "from_pixels(grey channel 0/255)": lambda: cls.from_pixels(np.array(px[..., 0]))})
+        built = {}
+        for rname, mk in routes.items():
+            try:
+                built[rname] = mk()
+            except Exception as e:  # noqa: BLE001
+                ctx.tally(f"c09:route-unavailable:{rname}:{type(e).__name__}(not judged)")
+        for rname, b in built.items():
+            same = (type(b) is type(a) and np.asarray(b.connection_list).shape == d["cl"].shape and np.array_equal(np.asarray(b.connection_list).astype(bool), d["cl"])
+                    and (kind == "LatticeMaze" or (tuple(int(x) for x in b.start_pos) == tuple(d["s"]) and tuple(int(x) for x in b.end_pos) == tuple(d["e"])))
+                    and (kind != "SolvedMaze" or [tuple(int(x) for x in c) for c in b.solution] == [tuple(c) for c in d["path"]]))
+            if not same:
+                ctx.tally(f"c09:route-gives-another-maze:{rname}(not judged here)")
+                continue
+            ctx.ev(); ctx.tally("c09:pair:other-route")
+            c2 = dict(case, route=rname)
+            _eq_ops(ctx, a, b, True, c2)
+            ha, hb = _hash(ctx, a, c2), _hash(ctx, b, c2)
+            if ha is not None and hb is not None:
+                ctx.check(ha == hb, "C09/equal-mazes-different-hash", f"the same maze built by the constructor and through {rname}: hashes {ha} != {hb}", c2)
+            try:
+                ctx.check(len({a, b}) == 1 and len(dict.fromkeys([a, b])) == 1, "C09/set-does-not-dedup-equal-mazes", f"constructor + {rname}", c2)
+            except Exception as e:  # noqa: BLE001
+                ctx.violation(f"C09/set-dedup-raises/{type(e).__name__}", repr(e)[:300], c2)
+
+
+def _loader_ctors(ctx, n):
+    """the other way solved mazes come into being - a dataset loaded from its serialized form: a start / end outside the grid in the
+    stored arrays must be refused (any exception) or at least never end up inside a maze object"""
+    from maze_dataset import MazeDataset, MazeDatasetConfig
+
+    for i in range(n):
+        if not ctx.mine(i):
+            continue
+        rng = ctx.sub_rng("loader-ctor", i)
+        g_n = int(rng.integers(2, 7))
+        mazes = []
+        for t in range(int(rng.integers(1, 4))):
+            _, cl = ref.random_structure(g_n, g_n, rng, "tree")
+            g = Graph(cl)
+            cells = ref.all_cells(g_n, g_n)
+            mazes.append(lib.solved(cl, g.shortest_path(cells[int(rng.integers(len(cells)))], cells[int(rng.integers(len(cells)))], rng)))
+        fmt = ["_serialize_minimal", "_serialize_minimal_soln_cat"][i % 2]
+        with warnings.catch_warnings():
+            warnings.simplefilter("ignore")
+            ds = MazeDataset(MazeDatasetConfig(name=f"c09l{i}", grid_n=g_n, n_mazes=len(mazes)), mazes)
+            data = getattr(ds, fmt)()
+            key = "maze_solutions" if fmt == "_serialize_minimal" else "maze_solutions_concat"
+            arr = np.array(data[key])
+            bad = [-1, -3, g_n, g_n + 2, -128][i % 5]
+            tag = "negative" if bad < 0 else "too-large"
+            # the first cell of the first stored solution (= its start), or the last cell of the last one (= its end)
+            if fmt == "_serialize_minimal":
+                pos = (0, 0, int(rng.integers(2))) if i % 4 < 2 else (len(mazes) - 1, len(mazes[-1].solution) - 1, int(rng.integers(2)))
+            else:
+                pos = (0, int(rng.integers(2))) if i % 4 < 2 else (arr.shape[0] - 1, int(rng.integers(2)))
+            arr[pos] = bad
+            data[key] = arr
+            if "maze_endpoints" in data:
+                ep = np.array(data["maze_endpoints"])
+                if i % 4 < 2:
+                    ep[0, 0] = arr[0]
+                else:
+                    ep[-1, 1] = arr[-1]
+                data["maze_endpoints"] = ep
+            case = dict(format=fmt, grid_n=g_n, stored_value=bad, where=list(pos))
+            try:
+                back = MazeDataset.load(data)
+                raised = None
+            except Exception as e:  # noqa: BLE001
+                back, raised = None, e
+        ctx.ev(); ctx.tally(f"c09:loader-ctor:{tag}")
+        if raised is not None:
+            ctx.tally("c09:loader-ctor:refused")
+            continue
+        outside = [(t, tuple(int(x) for x in m.start_pos), tuple(int(x) for x in m.end_pos)) for t, m in enumerate(back.mazes)
+                   if not all(0 <= int(v) < g_n for v in (*m.start_pos, *m.end_pos))]
+        ctx.check(not outside, f"C09/ctor-accepts-out-of-range/{tag}/loaded-dataset",
+                  lambda: f"{fmt}: a stored coordinate {bad} on a {g_n}x{g_n} grid was loaded into maze objects: (index, start, end) {outside[:3]}", case)
 
 
 def _dedup(ctx, n):
